@@ -178,6 +178,21 @@ func c13RawPath(w *World, r *Report, ctxI *types.Interface) {
 				if c, _ := resultOfCall(o); c != nil && callName(c.Common()) == "net/url.PathUnescape" {
 					okR := rawV != nil && sameOrigins(w, rawV, c.Common().Args[0])
 					r.Ob(ri, key+"|rawpath-kept", lit.Pos(), okR, "RawPath must be the value that was unescaped into Path")
+					// what is unescaped must be a still-encoded path: unescaping an already decoded path decodes twice
+					okS, bad := true, ""
+					for _, ao := range w.Origins(c.Common().Args[0], through) {
+						if isRawPathSource(ao) != "" {
+							continue
+						}
+						if cs, isC := ao.(*ssa.Const); isC && cs.Value != nil {
+							continue
+						}
+						okS, bad = false, ao.String()
+						if _, pp := accessPath(ao); len(pp) > 0 {
+							bad = strings.Join(pp, ".")
+						}
+					}
+					r.Ob(ri, key+"|unescape-input-is-raw", c.Pos(), okS, "url.PathUnescape is applied to "+bad+", which is not a raw-path source (EscapedPath / request target): an already decoded path would be decoded twice")
 				}
 			}
 		}
